@@ -280,6 +280,77 @@ def rule_delete_add(repo: Repo) -> RuleResult:
     return r
 
 
+def rule_frame(repo: Repo) -> RuleResult:
+    r = RuleResult("C03.frame", "a delete effect removes only the fact with the same ground text; an add effect inserts the effect's own fact under its predicate's key",
+                   "every other fact is unchanged")
+    f = repo.func("GroundedEffect._apply_discrete_effects")
+    p = L.prov(repo, f)
+    g = C.cfg_of(f.node)
+    tp = [x for x in f.params if x != f.self_name][0]
+    discards = [c for c in L.calls_in(f.node) if isinstance(c.func, ast.Attribute) and c.func.attr in MUT_REMOVE and
+                any(x[0] == f"param:{tp}" for x in p.trace(c.func.value))]
+    r.site(f.qn + " [removal guard]")
+    if not discards:
+        raise AnalysisError("_apply_discrete_effects: removal call not recognised")
+    ok = True
+    why = ""
+    for d in discards:
+        # the removal is dominated by an equality test between the ground text of the state fact and of the (positive copy of the) effect
+        dn = g.node_containing(d)
+        dom = C.dominators(g)
+        guards = []
+        for n in dom[dn]:
+            st = g.stmt[n]
+            if isinstance(st, ast.If):
+                for cmp_ in ast.walk(st.test):
+                    if isinstance(cmp_, ast.Compare) and len(cmp_.ops) == 1 and isinstance(cmp_.ops[0], ast.Eq):
+                        a, b = ast.unparse(cmp_.left), ast.unparse(cmp_.comparators[0])
+                        if a.endswith(".untyped_representation") and b.endswith(".untyped_representation") and a != b:
+                            guards.append((n, cmp_))
+        if not guards:
+            ok, why = False, "no dominating equality of the two ground texts"
+            continue
+        # the removed element is the compared state fact, and the branch taken is the 'equal' one
+        n, cmp_ = guards[-1]
+        seen_eq = C.reach_under(g, lambda e, c=cmp_: True if e is c else None, start=n)
+        seen_ne = C.reach_under(g, lambda e, c=cmp_: False if e is c else None, start=n)
+        if not (dn in seen_eq and dn not in seen_ne):
+            ok, why = False, "the removal is not confined to the branch where the texts are equal"
+        arg = d.args[0] if d.args else None
+        sides = {ast.unparse(cmp_.left).rsplit(".", 1)[0], ast.unparse(cmp_.comparators[0]).rsplit(".", 1)[0]}
+        if arg is None or ast.unparse(arg) not in sides:
+            ok, why = False, f"the removed element {unparse(arg) if arg is not None else None} is not the fact that was compared"
+        recv_key = [x for x in p.trace(d.func.value, keys=True) if "askey" in x]
+        if not any("attr:lifted_untyped_representation" in x for x in recv_key):
+            ok, why = False, "the set the fact is removed from is not the one keyed by the effect's lifted predicate text"
+    if ok:
+        r.ok({"removal": "discard(state_fact) only when state_fact.untyped_representation == positive(effect).untyped_representation"})
+    else:
+        r.fail(Finding("C03.frame", f, "removal-guard", f"delete effects can remove other facts: {why}", node=discards[0]))
+    r.site(f.qn + " [insertion key]")
+    stores = [n for n in ast.walk(f.node) if isinstance(n, ast.Assign) and len(n.targets) == 1 and isinstance(n.targets[0], ast.Subscript) and
+              any(x[0] == f"param:{tp}" for x in p.trace(n.targets[0].value))]
+    adds = [c for c in L.calls_in(f.node) if isinstance(c.func, ast.Attribute) and c.func.attr == "add"]
+    ok = bool(adds)
+    for a in adds:
+        at = p.trace(a.args[0]) if a.args else set()
+        ok = ok and all(x[-1] == "elem" or "call:copy" in x for x in at if x[0] == "self") and any(x[0] == "self" and "attr:grounded_discrete_effects" in x for x in at)
+    for s_ in stores:
+        kt = p.trace(s_.targets[0].slice)
+        ok = ok and any(x[-1] == "attr:lifted_untyped_representation" and "attr:grounded_discrete_effects" in x for x in kt)
+    gets = [c for c in L.calls_in(f.node) if isinstance(c.func, ast.Attribute) and c.func.attr in ("get", "setdefault") and
+            any(x[0] == f"param:{tp}" for x in p.trace(c.func.value))]
+    for c in gets:
+        kt = p.trace(c.args[0]) if c.args else set()
+        ok = ok and any(x[-1] == "attr:lifted_untyped_representation" for x in kt)
+    if ok:
+        r.ok({"insertion": "map[effect.lifted_untyped_representation] (existing set or a new one) .add(effect)"})
+    else:
+        r.fail(Finding("C03.frame", f, "insertion-key", "an add effect is not inserted as itself under its own predicate's key"))
+    r.require_sites(2)
+    return r
+
+
 def _fluent_env_params(repo: Repo, f: FuncInfo, depth: int = 0) -> Set[str]:
     """parameters of f from which the `state_fluents` argument of set_expression_value derives (one helper level)."""
     p = L.prov(repo, f)
@@ -402,7 +473,7 @@ def rule_universal(repo: Repo) -> RuleResult:
 
 def rules(repo: Repo, tier: str) -> List[RuleResult]:
     from . import c06, c07
-    out = [rule_antecedent(repo), rule_copy(repo), rule_delete_add(repo), c12.rule_assign(repo, "C03.assign"),
+    out = [rule_antecedent(repo), rule_copy(repo), rule_delete_add(repo), rule_frame(repo), c12.rule_assign(repo, "C03.assign"),
            rule_prestate_rhs(repo), rule_universal(repo)]
     out.append(c06.rule_conform(repo, "C03.range", only_funcs=("Operator._apply_universal_effects",)))
     out.append(c07.rule_escape(repo, "C03.escape"))
